@@ -597,6 +597,11 @@ class Interp:
                     r = self.eq(a2, b2)
             return VBool(r if opn == "Is" else z3.Not(r))
         if opn in ("Eq", "NotEq"):
+            if not isinstance(a, VUnion) and getattr(a, "tag", None) == "obj" and a.ref.kind != "rec":
+                fc = self.cset.lookup_method(a.ref.cls, "__eq__")
+                if fc is not None:
+                    r = self.truth(self.call_contract(fc, a, [b], {}, None))
+                    return VBool(r if opn == "Eq" else z3.Not(r))
             r = self.eq(a, b)
             return VBool(r if opn == "Eq" else z3.Not(r))
         if opn in ("In", "NotIn"):
